@@ -324,6 +324,11 @@ def _follow(fn, l, proj, kind, node, bb, rxs):
     if kind == "call":
         callee = node.get("callee") or ""
         res = node.get("resolved") or ""
+        if callee.endswith("FromResidual::from_residual") and not node["dest"]["p"]:
+            # the value of `return Err(e)?` / `None?`: always the failing case, so its success payload is never read (as in access_path)
+            fields = [e for e in proj if e != "*"]
+            if fields and isinstance(fields[0], dict) and "dc" in fields[0] and _elem(fields[0]) in SUCC:
+                return None
         if callee and any(r.search(callee) or (res and r.search(res)) for r in rxs) and node["args"] and node["args"][0].get("k") in ("copy", "move"):
             a = node["args"][0]["pl"]
             return ("cont", a["l"], list(a["p"]) + proj, (callee, bb))
